@@ -131,6 +131,7 @@ def run(tier):
     rule_R9(res, prog)
     rule_R10(res, prog)
     rule_R11(res, prog)
+    rule_R12(res, prog)
     return res.finish()
 
 
@@ -946,3 +947,39 @@ def rule_R11(res, prog):
                                          "gives up, and the fatal alert (bad_record_mac) is never sent" % (fn.relfile, ln, rt[:60]), file=fn.relfile, line=ln)
                         res.instance(rid, "tls13EncodeAlert:%s required size covers the configured padding" % ln, ok, finding=f_)
     res.floor(rid, 4)
+
+
+def rule_R12(res, prog):
+    """'a MAC failure kills the session': the record MAC is compared over the READ side's MAC length.  The two directions keep
+    separate parameters (enMacSize / deMacSize, ...) that differ exactly while one cipher spec is active and the other is not
+    (the peer's Finished).  Cross-check of the sibling routines in the cipher suite table: a function that verifies / decrypts
+    reads no en* size field, a function that generates / encrypts reads no de* size field.  Comparing enMacSize octets in
+    the verifier compares ZERO octets of the first protected record of a handshake: its MAC is not checked at all."""
+    import re
+    rid = "C15.R12"
+    res.rule(rid, "record protection routines use the size parameters of their own direction (deMacSize when verifying, enMacSize when generating)")
+    EN = {"enMacSize", "enBlockSize", "enIvSize"}
+    DE = {"deMacSize", "deBlockSize", "deIvSize"}
+    n = 0
+    for fn in sorted(prog.functions.values(), key=lambda f: f.qname):
+        if not fn.blocks or fn.relfile not in ("matrixssl/cipherSuite.c", "matrixssl/tls13CipherSuite.c"):
+            continue
+        if re.search(r"VerifyMac|Decrypt", fn.name):
+            wrong, side = EN, "read"
+        elif re.search(r"GenerateMac|Encrypt", fn.name):
+            wrong, side = DE, "write"
+        else:
+            continue
+        used = [(ln, m.get("f")) for b, ln, m in fn.nodes() if m.get("k") == "mem" and m.get("f") in (EN | DE)]
+        if not used:
+            continue
+        n += 1
+        bad = [(ln, f) for (ln, f) in used if f in wrong]
+        f_ = None
+        if bad:
+            f_ = Finding(PROP, rid, fn.name, "size parameter of the other direction",
+                         "%s:%s %s(): works on the %s side but reads ssl->%s: the two differ while only one direction has changed its cipher "
+                         "spec - for the peer's Finished the MAC comparison then covers 0 octets, a record whose MAC is wrong is accepted and "
+                         "the session lives on" % (fn.relfile, bad[0][0], fn.name, side, bad[0][1]), file=fn.relfile, line=bad[0][0])
+        res.instance(rid, "%s: only %s-side size fields (%d uses)" % (fn.name, side, len(used)), not bad, finding=f_)
+    res.floor(rid, 2)
